@@ -279,6 +279,11 @@ class Bag(Factory, Container):
             else:
                 raise JsonFormatException(json["name"], "Bag.name")
 
+            if isinstance(json["range"], basestring):
+                range = json["range"]
+            else:
+                raise JsonFormatException(json["range"], "Bag.range")
+
             if json["values"] is None:
                 values = None
 
@@ -291,7 +296,10 @@ class Bag(Factory, Container):
                         else:
                             raise JsonFormatException(nv["w"], f"Bag.values {i} n")
 
-                        if nv["v"] in ("nan", "inf", "-inf") or isinstance(nv["v"], numbers.Real):
+                        if range == "S" and isinstance(nv["v"], basestring):
+                            # a Bag of strings keeps every string as it is ("nan" and "inf" are labels here, not numbers)
+                            v = nv["v"]
+                        elif nv["v"] in ("nan", "inf", "-inf") or isinstance(nv["v"], numbers.Real):
                             v = floatOrNan(nv["v"])
                         elif isinstance(nv["v"], basestring):
                             v = nv["v"]
@@ -313,11 +321,6 @@ class Bag(Factory, Container):
 
             else:
                 raise JsonFormatException(json["values"], "Bag.values")
-
-            if isinstance(json["range"], basestring):
-                range = json["range"]
-            else:
-                raise JsonFormatException(json["range"], "Bag.range")
 
             out = Bag.ed(entries, values, range)
             out.quantity.name = nameFromParent if name is None else name
